@@ -11,3 +11,26 @@ func TestC09_IfchangedLiveField(t *testing.T) {
 		t.Errorf("%s: got %q, %v; want \"xxx\"", src, out, err)
 	}
 }
+
+// C09 "ifchanged prints only when the watched value differs from the previous iteration": a watched value that stays
+// nil, or stays an equal slice/map, counted as changed on every iteration (EqualValueTo answers false for those).
+func TestC09_IfchangedNilAndSequences(t *testing.T) {
+	ctx := map[string]any{
+		"rows": [][]int{{1, 2}, {1, 2}, {3}, {3}},
+		"nils": []any{nil, nil, nil},
+		"maps": []map[string]int{{"a": 1}, {"a": 1}},
+		"ints": []int{1, 1, 2, 2},
+	}
+	for _, c := range []struct{ src, want string }{
+		{`{% for r in rows %}{% ifchanged r %}C{% else %}s{% endifchanged %}{% endfor %}`, "CsCs"},
+		{`{% for x in nils %}{% ifchanged x %}C{% else %}s{% endifchanged %}{% endfor %}`, "Css"},
+		{`{% for m in maps %}{% ifchanged m %}C{% else %}s{% endifchanged %}{% endfor %}`, "Cs"},
+		{`{% for x in ints %}{% ifchanged nothing %}C{% else %}s{% endifchanged %}{% endfor %}`, "Csss"},
+		{`{% for x in ints %}{% ifchanged x %}C{% else %}s{% endifchanged %}{% endfor %}`, "CsCs"},
+	} {
+		out, err := render(t, newSet(nil), c.src, ctx)
+		if err != nil || out != c.want {
+			t.Errorf("%s: got %q, %v; want %q", c.src, out, err, c.want)
+		}
+	}
+}
